@@ -37,6 +37,11 @@ def calculate_fee(
     return fee + reserve
 
 
+def signature_size(source: str) -> int:
+    """Size of the signature of an operation signed by `source`: 96 bytes for BLS (tz4) accounts, 64 otherwise."""
+    return 96 if source.startswith('tz4') else 64
+
+
 def default_fee(
     content: Dict[str, Any],
     gas_limit: Optional[int] = None,
@@ -49,7 +54,8 @@ def default_fee(
     return calculate_fee(
         content=content,
         consumed_gas=gas_limit if gas_limit is not None else default_gas_limit(content),
-        extra_size=32 + 64 + 3 * 3,  # branch, signature, fee:gas_limit:storage_limit mutez values (+3 bytes)
+        # branch, signature, fee:gas_limit:storage_limit mutez values (+3 bytes)
+        extra_size=32 + signature_size(content.get('source', '')) + 3 * 3,
         minimal_nanotez_per_gas_unit=minimal_nanotez_per_gas_unit,
     )
 
